@@ -510,6 +510,10 @@ def annotate_fn(f, override_requires=None, canary=False, drop_body=False):
     if f.mode == "assume" or drop_body:
         ed.replace(toks[bo].start, toks[body_close].end, "{ unimplemented!() }")
         new = ed.apply()
+        for old_s, nw in f.sig_subst:
+            if new.count(old_s) < 1:
+                raise Undecided(f"{f.key}: sig subst anchor lost")
+            new = new.replace(old_s, nw, 1)
         attrs = "#[verifier::external_body]\n"
         return attrs + new, meta
 
